@@ -157,6 +157,21 @@ theorem canonForm_agree (hb : BlissLawful env) {ig₁ ig₂ : IGraph} {c₁ c₂
     have := key.edge _ (hlt ha) _ (hlt ha')
     rwa [hτ ha hb', hτ ha' hb''] at this
 
+/-- the law only concerns the two bliss fields of the environment -/
+theorem congr {env₂ : DepEnv} (hb : BlissLawful env) (hcp : env₂.canonicalPermutation = env.canonicalPermutation)
+    (hpv : env₂.permuteVertices = env.permuteVertices) : BlissLawful env₂ := by
+  have e : env₂.canonForm = env.canonForm := by
+    funext ig c; unfold DepEnv.canonForm; rw [hcp, hpv]
+  constructor
+  · intro ig c hv; rw [e]; exact hb.names_perm ig c hv
+  · intro ig₁ c₁ ig₂ c₂ τ hv₁ hv₂ hσ hτ
+    apply hb.canonical ig₁ c₁ ig₂ c₂ τ hv₁ hv₂ hσ
+    intro i hi
+    have := hτ i hi
+    unfold DepEnv.canonPos at this ⊢
+    rw [e] at this
+    exact this
+
 end BlissLawful
 
 /-! ## `Graph.from_networkx` on a well-formed graph -/
